@@ -411,3 +411,89 @@ def r_one_spawner_per_request(ctx: Ctx, rule: str, names=("apply", "_map", "star
                     same = gexpr is not None and (ast.unparse(gexpr) == ast.unparse(r.ast.value) or ctx.vals.same((gfr, genv, gexpr), (r.func, r.env, r.ast.value)))
                     rep.ob(rule, "the returned group name is the one handed to the spawner", same, node=r,
                            detail=f"spawner gets {ast.unparse(gexpr) if gexpr is not None else None}")
+
+
+def r_function_predicate(ctx: Ctx, rule: str) -> None:
+    """What is accepted as the function of a request is what asyncio's `iscoroutinefunction` accepts - nothing more.  Decided by
+    evaluating the tests of `_check_start` (and of SimpleTaskPool.__init__) three-valued under the assumption "a function was
+    passed and iscoroutinefunction(function) is false": the normal exit must be unreachable (the request is rejected)."""
+    from ..cfg import bind_args, strip_cast
+
+    rep = ctx.rep
+    rep.rule(rule, "FUNCTION-PREDICATE: with a function given for which iscoroutinefunction(function) is false, neither _check_start nor "
+                   "SimpleTaskPool.__init__ can return normally (a wider home-made predicate - callable objects, classes with an async "
+                   "__call__ - lets requests through whose call never yields a coroutine)")
+    targets = [(f, "function") for f in ctx.pool_funcs("_check_start")] + [(f, "func") for f in ctx.pool_funcs("__init__") if "func" in f.param_names()]
+    rep.floor(rule, "functions validating the coroutine function", len(targets), 2)
+    for f, pname in targets:
+        g = ctx.an.cfg(f)
+
+        def is_param(fr, env, e: ast.AST, which: Optional[str] = None) -> bool:
+            which = which or pname
+            fr2, env2, leaf = ctx.vals.trace(fr, env, e)
+            return fr2 is f and isinstance(leaf, ast.Name) and leaf.id == which and not ctx.an.scope(f).defs.get(which)
+
+        # the request under test passes the function and nothing else (`awaitable` and `function` exclude each other)
+        absent = [p for p in f.param_names() if p == "awaitable"]
+
+        def is_absent(fr, env, e: ast.AST) -> bool:
+            return any(is_param(fr, env, e, a_) for a_ in absent)
+
+        def ev(fr, env, e: ast.AST, depth: int = 0):
+            """True / False / None (unknown) under the assumption"""
+            e = strip_cast(e)
+            if depth > 6:
+                return None
+            if isinstance(e, ast.UnaryOp) and isinstance(e.op, ast.Not):
+                v = ev(fr, env, e.operand, depth + 1)
+                return None if v is None else not v
+            if isinstance(e, ast.BoolOp):
+                vals = [ev(fr, env, x, depth + 1) for x in e.values]
+                if isinstance(e.op, ast.And):
+                    return False if any(v is False for v in vals) else (True if all(v is True for v in vals) else None)
+                return True if any(v is True for v in vals) else (False if all(v is False for v in vals) else None)
+            if isinstance(e, ast.Compare) and len(e.ops) == 1 and isinstance(e.comparators[0], ast.Constant) and e.comparators[0].value is None and is_param(fr, env, e.left):
+                if isinstance(e.ops[0], ast.Is):
+                    return False
+                if isinstance(e.ops[0], ast.IsNot):
+                    return True
+            if isinstance(e, ast.Compare) and len(e.ops) == 1 and isinstance(e.comparators[0], ast.Constant) and e.comparators[0].value is None and is_absent(fr, env, e.left):
+                if isinstance(e.ops[0], ast.Is):
+                    return True
+                if isinstance(e.ops[0], ast.IsNot):
+                    return False
+            if isinstance(e, ast.Constant) and isinstance(e.value, bool):
+                return e.value
+            if isinstance(e, ast.Call):
+                if id(e) in ctx.an.spliced_at and depth < 4:
+                    t = ctx.an.spliced_at[id(e)]
+                    sub = bind_args(e, t, fr, env)
+                    rets = [r.value for r in ctx.an.scope(t)._own_nodes() if isinstance(r, ast.Return) and r.value is not None]
+                    vals = {ev(t, sub, r, depth + 1) for r in rets}
+                    return vals.pop() if len(vals) == 1 else None
+                nm = ctx.an.scope(fr).callee(e).name
+                if nm.rpartition(".")[2] == "iscoroutinefunction" and len(e.args) == 1 and not e.keywords and is_param(fr, env, e.args[0]):
+                    return False
+                return None
+            if isinstance(e, ast.Name):
+                if is_param(fr, env, e):
+                    return True
+                if is_absent(fr, env, e):
+                    return False
+                hows = ctx.an.scope(fr).defs.get(e.id, [])
+                if len(hows) == 1 and hows[0][0] in ("assign", "ann"):
+                    return ev(fr, env, hows[0][1] if hows[0][0] == "assign" else hows[0][2], depth + 1)
+            return None
+
+        def ef(a: Node, b: Node, lab: Label) -> bool:
+            if lab[0] not in NORMAL_KINDS:
+                return False
+            if a.op == "test" and lab[0] in ("T", "F"):
+                v = ev(a.func, a.env, a.ast)
+                if v is not None:
+                    return (lab[0] == "T") == v
+            return True
+
+        accepted = g.exit in reach([g.entry], ef)
+        rep.ob(rule, "a function that is no coroutine function cannot pass the check", not accepted, func=f, construct=f"{f.short}({pname}=<not a coroutine function>)",
+               detail="" if not accepted else "some path returns normally although iscoroutinefunction(function) is false: the predicate in use accepts more than coroutine functions")
